@@ -1144,6 +1144,86 @@ func c10BatchSlot(info *types.Info, e ast.Expr) (b, i types.Object, k int64, ok 
 	return b, i, kk, true
 }
 
+// c10BatchSlotG: like c10BatchSlot, with the index decoded as a linear form 2*i+k in which
+// once-defined locals are expanded ( keySlot := 2*iBatch+1; batch[keySlot+1] is slot 2*iBatch+2 ).
+func c10BatchSlotG(g *an.Graph, info *types.Info, e ast.Expr) (b, i types.Object, k int64, ok bool) {
+	if b, i, k, ok = c10BatchSlot(info, e); ok {
+		return
+	}
+	ix, isIx := ast.Unparen(e).(*ast.IndexExpr)
+	if !isIx {
+		return nil, nil, 0, false
+	}
+	b = an.ObjOf(info, ix.X)
+	if b == nil {
+		return nil, nil, 0, false
+	}
+	// eval: expression = coef*obj + k
+	var eval func(x ast.Expr, depth int) (types.Object, int64, int64, bool)
+	eval = func(x ast.Expr, depth int) (types.Object, int64, int64, bool) {
+		x = ast.Unparen(x)
+		if v, isC := c10ConstInt(info, x); isC {
+			return nil, 0, v, true
+		}
+		if depth > 5 {
+			return nil, 0, 0, false
+		}
+		switch y := x.(type) {
+		case *ast.Ident:
+			o := an.ObjOf(info, y)
+			if o == nil {
+				return nil, 0, 0, false
+			}
+			if g != nil {
+				if rhs, _ := g.SingleDef(o); rhs != nil && rhs != x {
+					if ro, rc, rk, rok := eval(rhs, depth+1); rok {
+						return ro, rc, rk, true
+					}
+				}
+			}
+			return o, 1, 0, true
+		case *ast.CallExpr:
+			if tv, isT := info.Types[y.Fun]; isT && tv.IsType() && len(y.Args) == 1 {
+				return eval(y.Args[0], depth+1)
+			}
+		case *ast.BinaryExpr:
+			ao, ac, ak, aok := eval(y.X, depth+1)
+			bo, bc, bk, bok := eval(y.Y, depth+1)
+			if !aok || !bok {
+				return nil, 0, 0, false
+			}
+			switch y.Op {
+			case token.ADD, token.SUB:
+				sgn := int64(1)
+				if y.Op == token.SUB {
+					sgn = -1
+				}
+				switch {
+				case ao == nil:
+					return bo, sgn * bc, ak + sgn*bk, true
+				case bo == nil:
+					return ao, ac, ak + sgn*bk, true
+				case ao == bo:
+					return ao, ac + sgn*bc, ak + sgn*bk, true
+				}
+			case token.MUL:
+				if ao == nil && ac == 0 {
+					return bo, ak * bc, ak * bk, true
+				}
+				if bo == nil && bc == 0 {
+					return ao, bk * ac, bk * ak, true
+				}
+			}
+		}
+		return nil, 0, 0, false
+	}
+	o, coef, kk, eok := eval(ix.Index, 0)
+	if !eok || o == nil || coef != 2 {
+		return nil, nil, 0, false
+	}
+	return b, o, kk, true
+}
+
 func c10ContentAddr(c *rep.Ctx) {
 	p := c.Prog
 	live := p.LookupField(c10TriePkg, "CacheDB", "liveCache")
@@ -1295,7 +1375,7 @@ func c10ContentAddr(c *rep.Ctx) {
 					if m.Kind != an.KStmt || !ok || len(as.Lhs) != 1 || len(as.Rhs) != 1 {
 						continue
 					}
-					b, i, k, ok := c10BatchSlot(info, as.Lhs[0])
+					b, i, k, ok := c10BatchSlotG(g, info, as.Lhs[0])
 					if !ok || b != bobj || !g.Dominated(s.Node, an.SetOf(m)) {
 						continue
 					}
